@@ -34,7 +34,12 @@ def gen_scenario(seed, i, tier):
         if rng.chance(1, 5):
             ops.append(["run", rng.below(4)])
         ops.append(["runall", policy, rng.below(1 << 30)])
-        ops.append(["act", "next", "p1", {"open": rng.below(4)}, {}])
+        ev = "next"
+        if i % 5 == 4:
+            # other ways to answer an interrupt: every one of them has to let the process go on
+            ev = rng.weighted([("next", 6), ("submit", 2), ("remove", 2), ("skip", 2)])
+            g.features.add("answers-mixed")
+        ops.append(["act", ev, "p1", {"open": rng.below(4)}, {}])
     ops.append(["runall", policy, rng.below(1 << 30)])
     sc = {"id": f"c01-{seed}-{i}", "config": {"keep": True, "dump_each": True}, "models": [w], "ops": ops, "exprs": g.exprs,
           "features": sorted(g.features | {"else-" + else_pos, policy})}
@@ -178,7 +183,7 @@ def run(ctx):
         else:
             ncorr += 1
     for k, (rq, rf) in enumerate(zip(ref_reqs, refs)):
-        if not isinstance(rf, dict) or not rf.get("in_fragment") or k in flagged or "hooks" in scs[k]["features"]:
+        if not isinstance(rf, dict) or not rf.get("in_fragment") or k in flagged or "hooks" in scs[k]["features"] or "answers-mixed" in scs[k]["features"]:
             continue
         for (i, answered, opens, terminal), pt in zip(rq["_pts"], rf.get("points", [])):
             nref += 1
